@@ -12,6 +12,7 @@ pub mod io;
 pub mod prim;
 pub mod query;
 pub mod rel;
+pub mod sanit;
 pub mod shift;
 pub mod slice;
 pub mod text;
@@ -43,6 +44,7 @@ pub const PROPS: &[PropDef] = &[
     PropDef { id: "C17", run: query::run, replay: query::replay, required: query::REQUIRED_C17 },
     PropDef { id: "C18", run: hist::run, replay: hist::replay, required: hist::REQUIRED_C18 },
     PropDef { id: "C19", run: fixedcap::run, replay: fixedcap::replay, required: fixedcap::REQUIRED_C19 },
+    PropDef { id: "SANIT", run: sanit::run, replay: sanit::replay, required: sanit::REQUIRED_SANIT },
     PropDef { id: "C20", run: arith::run, replay: arith::replay, required: arith::REQUIRED_C20 },
 ];
 
